@@ -168,8 +168,9 @@ structure FilterRun (g : Graph) (wl : Whitelist) (st : St) (start wlRoutes : Lis
 theorem filterRun_of_ok {g : Graph} (hwf : g.refsOk = true) (hda : docsAgree g = true) {wl : Whitelist}
     {r : Filtered} (h : whitelistFilter g wl = .ok r) :
     ∃ st wlRoutes, FilterRun g wl st r.start wlRoutes ∧ r.types = st.types ∧
-      r.routes = addAll [] (wlRoutes ++ st.routes) ∧ r.seen = st.seen := by
-  obtain ⟨canon, rts, wlRoutes, dts, st, hc, hr, hd, hst, e1, e2, _, e4, e5⟩ := whitelistFilter_ok h
+      r.routes = addAll [] (wlRoutes ++ st.routes) ∧ r.seen = st.seen ∧
+      filterAliases g st.types (g.dfsFuel 0) g.allAliases = .ok r.aliases := by
+  obtain ⟨canon, rts, wlRoutes, dts, st, hc, hr, hd, hst, e1, e2, e3, e4, e5⟩ := whitelistFilter_ok h
   obtain ⟨i1, i2, i3⟩ := routeWhitelistSeeds_spec hwf hda hc hr
   obtain ⟨d1, d2⟩ := datatypeWhitelistSeeds_spec hda hd
   have hinv0 : Inv g ((rts ++ dts).map .node) ((rts ++ dts).map .node) {} := by
@@ -194,7 +195,7 @@ theorem filterRun_of_ok {g : Graph} (hwf : g.refsOk = true) (hda : docsAgree g =
       obtain ⟨b, _, rfl⟩ := hit
       trivial)
     (by intro t ht; cases ht) (by intro t ht; cases ht)
-  refine ⟨st, wlRoutes, ⟨?_, ?_, ?_, ?_, ?_, ?_, ?_⟩, e1, e2, e4⟩
+  refine ⟨st, wlRoutes, ⟨?_, ?_, ?_, ?_, ?_, ?_, ?_⟩, e1, e2, e4, e3⟩
   · rw [e5]; exact hinv
   · rw [i1]; rfl
   · intro r hr; exact (hsound.2 r hr).2
